@@ -15,7 +15,7 @@ RULE = ("G-sim traces (1-3 host threads, 1-4 streams, every sync kind, launches 
         "sentinel and >= 1 row without id. Distinct = hash of files + configuration.")
 ASSUMPTIONS = ["well-formed regime re-derived from raw events by hv/wf.py (violating cases are discarded, counted)",
                "reference link rule hv/ref/raw.py::link_oracle", "ijson backends unreachable"]
-PLAN = {"quick": {"shards": 16, "cases": 640, "timeout": 600}, "thorough": {"shards": 16, "cases": 12000, "timeout": 3000}}
+PLAN = {"quick": {"shards": 16, "cases": 1280, "timeout": 600}, "thorough": {"shards": 16, "cases": 12000, "timeout": 3000}}
 FLOORS = {
     "quick": {"distinct_nontrivial": 150, "transform_correlation_to_index.post": 300, "linked_rows": 3000, "zero_sentinels": 300,
               "sync_links": 100, "rows_gt_127": 20},
@@ -41,6 +41,11 @@ def gen_case(rnd, tier: str, i: Any) -> Dict[str, Any]:
         gen_sim.drop_events(rnd, tr, p_launch=rnd.choice([0, 0.1, 0.3]), p_kernel=rnd.choice([0, 0.1, 0.3]), p_sync=rnd.choice([0, 0.2]))
         files[f"rank{r}.json"] = tr
     return {"files": files, "cfg": {"mode": rnd.choice(["parse", "load"]), "mp": rnd.random() < 0.3, "inc_last": rnd.random() < 0.5}}
+
+
+def fixed_cases(tier: str):
+    from hv import samples
+    return [dict(c, cfg={"mode": m, "mp": False, "inc_last": False}) for c in samples.sample_cases(tier) for m in ("parse", "load")]
 
 
 def run_case(case: Dict[str, Any], ctx: Any) -> core.CaseResult:
@@ -103,7 +108,9 @@ def run_case(case: Dict[str, Any], ctx: Any) -> core.CaseResult:
         res.counters["no_id_rows"] += n_none
         res.nontrivial = n_linked > 0 and n_zero > 0 and n_none > 0
         res.trivial_reason = "no linked pair or no zero sentinel"
-        res.key = core.digest([case["files"], cfg])
+        res.key = core.digest([case.get("sample") or case["files"], cfg])
+        if case.get("sample"):
+            res.counters["real_sample_traces"] += 1
         first = next(iter(case["files"].values()))
         res.sample = {"cfg": cfg, "ranks": len(models), "events": len(first["traceEvents"]), "linked": n_linked, "zero": n_zero,
                       "events_head": [e for e in first["traceEvents"] if e.get("ph") == "X"][:4]}
